@@ -8,7 +8,7 @@ Extraction "containers.ml"
   arena_init alloc_oneshot alloc_reusable free_reusable arena_reset arena_stats cur_block arena_dup arena_sformat arena_string_set
   vec_empty vec_abs vec_reserve_fit vec_reserve_grow vec_reserve_additional vec_resize vec_append vec_insert vec_concat
   reserve_shape release_shape vec_remove_at vec_pop vec_clear vec_truncate vec_release vec_index_of vec_last_index_of
-  str_empty str_tmp str_abs str_nul_ok str_assign str_op_text str_op_char str_op_chars str_pad_end str_op_number str_op_hex
+  str_empty str_tmp str_abs str_nul_ok str_assign str_swap str_move_assign str_move_construct str_op_text str_op_char str_op_chars str_pad_end str_op_number str_op_hex
   str_op_format str_truncate str_clear str_reset str_equals
   hash_empty hash_rehash hash_insert hash_remove hash_get hash_release hash_abs hash_name name_key name_node name_get
   tree_empty tree_insert tree_remove tree_get tree_shape tree_keys rb_valid tree_state_ok single_rotate double_rotate hset hget insert_agrees remove_agrees chain_scan_agrees
